@@ -328,10 +328,12 @@ def tree_targets():
         'empty': lambda: {'a': []},
         'three-levels': lambda: {'g': [[[1, {'k': 2}], [3]], [[4]]], 'h': {'p': {'q': {'r': {'k': 1}}}}},
         'rows-of-dicts': lambda: {'g': [[{'k': 1}, {'k': 2}], [{'k': 3}]]},
+        'mixed-kinds': lambda: {'a': [{'0': 'x', 'k': 1}, [10, 20], objs.Obj(k=5), {'0': 'y'}]},
+        'mixed-kinds-2': lambda: {'a': [[10, 20], {'0': 'x', 'k': 1}, {'1': 'z'}]},
     }
 
 
-MUT_PATHS = ['a.*.k', 'a.*.0', 'a.*.b.*.k', 'a.*.n', '*.*.k', 'g.*.*.0', 'g.*.*.*.k', '*.*.*.0', 'h.*.*.*.k', 'g.*.*.k', '*.*.*.*.k', 'g.*.0']
+MUT_PATHS = ['a.*.k', 'a.*.0', 'a.*.1', 'a.*.b.*.k', 'a.*.n', '*.*.k', 'g.*.*.0', 'g.*.*.*.k', '*.*.*.0', 'h.*.*.*.k', 'g.*.*.k', '*.*.*.*.k', 'g.*.0']
 
 
 def snapshot(v, depth=0):
@@ -399,6 +401,53 @@ def gen_mutate(tier):
     return [[t, p, op, style] for t in tree_targets() for p in MUT_PATHS for op in ('assign', 'delete') for style in ('func', 'spec')]
 
 
+# ---------------------------------------------------------------------------
+# wildcard texts first seen after the path-text cache has filled up (history; runs in a forked child)
+
+def run_overflow(case):
+    import os
+    import pickle
+    n_fill, texts = case
+
+    def work():
+        t = {'a': {'x': {'z': 1}, 'y': {'z': 2, 'w': [3]}}, 'z': 0}
+        for i in range(n_fill):
+            glom({}, 'overflow%d.q' % i, default=None)
+        out = []
+        for text in texts:
+            steps = text_steps(text)
+            try:
+                want = ('ok', repr(glom(t, mk_spec('T', [s if isinstance(s, str) else ['[', s[1]] for s in steps]))))
+            except Exception as e:
+                want = ('exc', type(e).__name__)
+            try:
+                got = ('ok', repr(glom(t, text)))
+            except Exception as e:
+                got = ('exc', type(e).__name__)
+            out.append((text, want, got))
+        return out
+    r, w = os.pipe()
+    pid = os.fork()
+    if pid == 0:
+        try:
+            os.close(r)
+            with os.fdopen(w, 'wb') as f:
+                try:
+                    f.write(pickle.dumps(work()))
+                except BaseException as e:
+                    f.write(pickle.dumps([('child', ('err', repr(e)), ('ok', ''))]))
+        finally:
+            os._exit(0)
+    os.close(w)
+    with os.fdopen(r, 'rb') as f:
+        res = pickle.loads(f.read())
+    os.waitpid(pid, 0)
+    for text, want, got in res:
+        if want != got:
+            return R({'expected': 'text spelling %r equals the T spelling: %r' % (text, want), 'observed': repr(got), 'path_strings_parsed_before': n_fill}, 'overflow')
+    return R(None, 'ok', steps=len(res) + n_fill)
+
+
 def subs(tier, only=None):
     from ..engine import fast_tracebacks
     fast_tracebacks()
@@ -413,5 +462,9 @@ def subs(tier, only=None):
         Sub('wildcard-mutation', gen_mutate(tier), run_mutate,
             rule='case = (tree-shaped target, wildcard path, assign|delete, function|spec form) against a plain loop',
             min_nontrivial=10, min_outcomes=2, required_tags=['assign', 'delete']),
+        Sub('wildcards-after-cache-overflow', [[0, ['a.*.z', '**.z', 'a.*.*']], [10050, ['a.*.z', '**.z', 'a.*.*', '*.y.w.*']], [10050, ['a.**', '*']]],
+            run_overflow, rule='case = (number of distinct path strings parsed first, fresh wildcard texts): the text spelling must still equal the T spelling '
+                               'once the path-text cache (bound 10000) is full; each case in a forked child', min_nontrivial=2, min_outcomes=1, parallel=False,
+            case_timeout=120),
     ]
     return [s for s in out if only in (None, s.name)]
